@@ -305,10 +305,11 @@ pub open spec fn live_same(new: Map<PathV, FileS>, old: Map<PathV, FileS>, s: Se
 }
 // R5 shim: `[u8; 32] != [u8; 32]` (Verus gives array comparison no meaning)
 #[verifier::external_body] pub fn hash_ne(a: &[u8; 32], b: &[u8; 32]) -> (r: bool) ensures r == (a@ != b@) { a != b }
-// ghost step: record that a staging file's bytes were checked against a declared hash (only provable if they were)
+// ghost step: record that a staging file's bytes were checked against the declared hash AND the declared length (C10: "a write
+// whose streamed bytes do not match its declared hash or length changes no such path") - only provable if they were
 #[verifier::external_body]
-pub proof fn mark_verified(p: PathV, hash: Seq<u8>, tracked w: &mut World)
-    requires old(w).files.contains_key(p), H(old(w).files[p].bytes) == hash,
+pub proof fn mark_verified(p: PathV, hash: Seq<u8>, len: int, tracked w: &mut World)
+    requires old(w).files.contains_key(p), H(old(w).files[p].bytes) == hash, old(w).files[p].bytes.len() == len,
     ensures final(w).verified == old(w).verified.insert(p, hash), final(w).files == old(w).files, final(w).root == old(w).root,
         final(w).lock == old(w).lock, final(w).private == old(w).private, final(w).reliable == old(w).reliable, final(w).log == old(w).log,
         final(w).seen == old(w).seen, final(w).nlock == old(w).nlock,
@@ -351,6 +352,7 @@ pub fn drain_content<R: Read>(r: &mut R, len: u64) -> (res: std::io::Result<u64>
 //@replace /format!\("\.conflict-\{\}", super::wire::short_hash\(&hash\)\)/ => vfmt_conflict(short_hash(&hash))
 //@replace /"bad path"\.into\(\)/ => str_into("bad path")
 //@replace? /"content hash mismatch"\.into\(\)/ => str_into("content hash mismatch")
+//@replace? /"content shorter than declared"\.into\(\)/ => str_into("content shorter than declared")
 //@replace? /\*hasher\.finalize\(\)\.as_bytes\(\) != hash/ => hash_ne(hasher.finalize().as_bytes(), &hash)
 //@at entry
     broadcast use asp_path, asp_pathbuf, asp_pathbuf_val, asp_str, asp_string, ax_not_lockfile, ax_lock_not_staging;
@@ -372,6 +374,7 @@ pub fn drain_content<R: Read>(r: &mut R, len: u64) -> (res: std::io::Result<u64>
             buf@.len() == 256 * 1024, tf.path() == pbv(&tmp), !tf.displaced(), is_staging(pbv(&tmp)), inside(pv(root), pbv(&tmp)),
             fs.root == pv(root), !fs.lock, fs.private.contains(pbv(&tmp)), fs.nlock == w0.nlock,
             fs.files.contains_key(pbv(&tmp)), blake3::hasher_view(&hasher) == fs.files[pbv(&tmp)].bytes,
+            got as nat == fs.files[pbv(&tmp)].bytes.len(), got as nat + stream_of(&limited).len() <= len,
             live_same(fs.files, w0.files, Set::empty()),
 //@loop ~/hasher\.update/ decreases
             stream_of(&limited).len()
@@ -400,7 +403,7 @@ pub fn drain_content<R: Read>(r: &mut R, len: u64) -> (res: std::io::Result<u64>
     proof {
         lemma_inside_join(pv(root), pv(lockdir), strv("commit.lock"@));
     }
-    proof { mark_verified(pbv(&tmp), hash@, fs); }
+    proof { mark_verified(pbv(&tmp), hash@, len as int, fs); }
     let ghost w_pre = *fs;
     proof { assert(w_pre.files == w_staged.files && w_pre.private.contains(pbv(&tmp)) && w_pre.verified.contains_key(pbv(&tmp))); }
 //@at after /lf\.lock_exclusive\(\)\?;/
